@@ -77,3 +77,18 @@ Example C03_example :
   o_id (snd (step (fst (run s0 pre)) (OMatch ASnap 0 (B "TestA") (POk (B "z"))))) = B "[TestA - 2]" /\
   o_id (snd (step (fst (run s0 pre)) (OMatch ASnap 0 (B "TestA/b") (POk (B "z"))))) = B "[TestA/b - 2]".
 Proof. vm_compute. split; reflexivity. Qed.
+
+(* non-vacuity: every theorem of this file that has hypotheses has a concrete, non-trivial instance meeting ALL of them
+   (lemmas <Theorem>_witness / <Theorem>_applied in Proofs/WitnessesP.v); a representative one is restated here *)
+From Snaps Require Import Proofs.WitnessesP.
+Example C03_witnesses :
+  (s_running w03_s0 = [] /\ s_pending w03_s0 = [] /\ Forall call_op w03_pre /\
+   nth_error (s_cfgs w03_s0) w03_hd = Some w03_c1 /\ is_standalone AYaml = false /\
+   ~ (AYaml = ASnap /\ w03_p = PNoValues) /\
+   spec_counts (s_cfgs w03_s0) (s_caller w03_s0) w03_pre fresh_counts
+     (snapshot_path w03_c1 (s_caller w03_s0) w03_tA false, w03_tA) = w03_k /\ w03_k0 < w03_k) /\
+  (Forall wf_entry w03_es /\ wf_entry (w03_tidB, w03_snap) /\
+   no_collision w03_tidB w03_es /\ no_collision w03_tidC w03_es /\ ~ In w03_tidC (split_nl w03_snap) /\
+   w03_tidB <> [] /\ w03_tidB <> endseq /\ w03_tidC <> [] /\ w03_tidC <> endseq /\ w03_tidC <> w03_tidB) /\
+  (wf_file w03_file /\ safe_line w03_tidD /\ safe_text w03_bodyD /\ In w03_tidB (split_nl w03_bodyD)).
+Proof. exact C03_witnesses_all. Qed.
